@@ -146,7 +146,7 @@ var malformed = []string{
 	"stress 1 4 100 1", "stress 1 1 100 1 a", "stress 1 9 100 1 a", "stress 1 4 0 1 a", "stress 1 4 5001 1 a",
 	"stress 1 4 100 0 a", "stress 1 4 100 5 b", "stress 1 4 100 1 c", "stress x 4 100 1 a", "stress 1234567890 4 100 1 a",
 	"stress 1 4 1e2 1 a", "stress -1 4 100 1 a",
-	"writers 1 N0o 0", "writers 1 O0o,d0 0", "sched 1 O0o 0", "sched 1 c 0", "writers 1 O1o 0", "writers 1 O0x 0", "writers 1 O0o,G 0", "writers 1 c,O0o 0", "writers 1 O0o,c,c 0", "hosts 1 N0o 0", "hosts 1 P0,c,P0 0", "hosts 1 P1 0", "sched 1 P0 0", "writers 1 P0 0", "hosts 1 O0o 0", "sched 1 Z1 0", "writers 4 O3f 0", "writers 4 O0o 0",
+	"writers 1 N0o 0", "writers 1 O0o,d0 0", "sched 1 O0o 0", "sched 1 c 0", "writers 1 O1o 0", "writers 1 O0x 0", "writers 1 O0o,G 0", "writers 1 c,O0o 0", "writers 1 O0o,c,c 0", "hosts 1 N0o 0", "hosts 1 P0,c,P0 0", "hosts 1 P1 0", "sched 1 P0 0", "writers 1 P0 0", "hosts 1 O0o 0", "sched 1 Z1 0", "writers 4 O3f 0", "writers 4 O0o 0", "writers 1 L0x 0", "writers 1 L1g 0", "sched 1 L0g 0", "hosts 1 L0b 0", "writers 1 L0 0",
 }
 
 // client lines: configs that open log writers (some OpenWriter calls fail) and close their logs
@@ -161,6 +161,15 @@ var curatedWriters = []struct {
 	{2, "O0o,O1f,c;O0o,O1o,c"},
 	{2, "O0o,O0o,O1o,c;O1f,O0o,c"},
 	{1, "c;O0o,c"},
+	// whole log set-ups (BaseLog.provisionCommon): a set-up that fails AFTER its writer was opened, as first
+	// opener, while / before another Logging takes the same writer; then both unload
+	{1, "L0b,c;L0g,c"},
+	{1, "L0e,c;L0g,c"},
+	{1, "L0g,c;L0b,c"},
+	{1, "L0b,c;L0e,c;L0g,c"},
+	{2, "L0b,L1g,c;L1e,L0g,c"},
+	{1, "L0b;L0g,c"},
+	{1, "L0b,L0g,c;O0o,c"},
 }
 
 // the reverse proxy's hosts-pool client: handlers (or requests with dynamic upstreams) that provision
@@ -193,10 +202,17 @@ func randWriters(rng *core.Rand, nk int) string {
 	n := 1 + rng.Intn(4)
 	for i := 0; i < n; i++ {
 		k := rng.Intn(nk)
-		if rng.Chance(1, 4) {
+		switch r := rng.Intn(12); {
+		case r < 3:
 			ops = append(ops, "O"+strconv.Itoa(k)+"f")
-		} else {
+		case r < 6:
 			ops = append(ops, "O"+strconv.Itoa(k)+"o")
+		case r < 8:
+			ops = append(ops, "L"+strconv.Itoa(k)+"g")
+		case r < 10:
+			ops = append(ops, "L"+strconv.Itoa(k)+"b")
+		default:
+			ops = append(ops, "L"+strconv.Itoa(k)+"e")
 		}
 	}
 	if rng.Chance(9, 10) {
